@@ -347,8 +347,35 @@ def rule_framing(tree: Tree) -> RuleResult:
                     if tg in ("record_len", "index"):
                         sig.append(canon(a))
             return sig
+        def step_expr(loop):
+            """the amount `index` advances by per cycle, with a record_len temporary of the same loop substituted (so that `index += f(x)` and
+            `record_len = f(x); index += record_len` are the same step)"""
+            body = cfg.loop_body_nodes(loop.id)
+            rl, steps_ = [], []
+            for n in sorted(body):
+                a = cfg.nodes[n].ast
+                if cfg.nodes[n].kind == "stmt" and isinstance(a, ast.Assign) and dotted(a.targets[0]) == "record_len":
+                    rl.append(a.value)
+                if cfg.nodes[n].kind == "stmt" and isinstance(a, ast.AugAssign) and dotted(a.target) == "index" and isinstance(a.op, ast.Add):
+                    steps_.append(a.value)
+                elif cfg.nodes[n].kind == "stmt" and isinstance(a, ast.Assign) and dotted(a.targets[0]) == "index":
+                    steps_.append(None)
+            if len(steps_) != 1 or steps_[0] is None:
+                return None
+            import copy as _c
+            cur = None
+
+            def sub(e_, val):
+                class _S(ast.NodeTransformer):
+                    def visit_Name(self, node):
+                        return _c.deepcopy(val) if node.id == "record_len" and val is not None else node
+                return _S().visit(_c.deepcopy(e_))
+            for v in rl:  # `record_len = slice; record_len = int.from_bytes(record_len, 'big') + 5`: definitions in source order (straight-line in both loops)
+                cur = sub(v, cur)
+            e = sub(steps_[0], cur)
+            return " ".join(ast.unparse(e).split())
         same_start = start_value(scan) == {0} and start_value(rel) == {0}
-        same_step = step_sig(scan) == step_sig(rel) and len(step_sig(scan)) >= 2
+        same_step = step_expr(scan) is not None and step_expr(scan) == step_expr(rel)
         # no write to packet_data / total_packet_len after the scan loop
         writes_between = False
         after_scan = cfg.reachable_from(scan.id, exc=False) - cfg.loop_body_nodes(scan.id)
